@@ -14,6 +14,12 @@ import threading
 from asyncio import events
 
 
+class NoProgress(RuntimeError):
+    '''The code under test cannot be driven any further although the driver withholds nothing: every job is delivered,
+    every gate released, every timer fired, and still the system does not come to rest (or nothing is runnable).  Labs
+    record it as a step of the trace (the server is stuck), so that it is judged like a task that died.'''
+
+
 class Job:
     def __init__(self, loop, func, args):
         self.loop = loop
@@ -127,7 +133,7 @@ class VirtualLoop(asyncio.SelectorEventLoop):
                 self._run_once()
                 n += 1
                 if n > limit:
-                    raise RuntimeError('run_until_idle: livelock')
+                    raise NoProgress('run_until_idle: livelock')
         finally:
             self._leave()
 
@@ -145,10 +151,10 @@ class VirtualLoop(asyncio.SelectorEventLoop):
                 jobs[0].deliver()
                 continue
             if not self.advance():
-                raise RuntimeError('run_task: deadlock (nothing runnable, no timers)')
+                raise NoProgress('run_task: deadlock (nothing runnable, no timers)')
             n += 1
             if n > max_advances:
-                raise RuntimeError('run_task: too many timer advances')
+                raise NoProgress('run_task: too many timer advances')
         return task.result() if task.done() else None
 
     def shutdown(self):
